@@ -30,6 +30,9 @@ Quads == {q \in [1..4 -> Params] : Cardinality({q[1], q[2], q[3], q[4]}) >= 3 /\
 \* carrier lines: <<a, b>> with a finite
 Carriers2 == {<< <<0,0,1>>, <<1,0,0>> >>, << <<1,2,1>>, <<1,1,0>> >>, << <<0,1,1>>, <<2,-1,1>> >>, << <<-1,1,1>>, <<0,1,0>> >>,
               << <<2,0,1>>, <<-1,3,1>> >>, << <<1,1,2>>, <<3,-1,2>> >>}
+\* every line of the lattice with coefficients in -1..1 (the coordinate axes, the diagonals, ...) as <<finite lattice point, direction>>
+CarrierOf(l) == LET a == CHOOSE p \in {<<x, y, 1>> : x \in -2..2, y \in -2..2} : Dot(l, p) = 0 IN <<a, <<l[2], -l[1], 0>> >>
+AllCarriers2 == Carriers2 \cup {CarrierOf(l) : l \in {h \in Classes(3, 1) : ~(h[1] = 0 /\ h[2] = 0)}}
 Carriers3 == {<< <<0,0,0,1>>, <<1,0,0,0>> >>, << <<1,2,0,1>>, <<1,1,1,0>> >>, << <<0,1,1,1>>, <<2,-1,0,1>> >>, << <<1,0,2,1>>, <<0,1,-1,1>> >>}
 Carriers1 == {<< <<0,1>>, <<1,0>> >>, << <<1,1>>, <<1,-1>> >>, << <<2,1>>, <<1,3>> >>}
 Vertices2 == {<<0,0,1>>, <<0,3,1>>, <<2,0,1>>, <<-1,-2,1>>, <<3,1,1>>, <<1,-1,0>>, <<0,1,0>>, <<5,2,2>>}
@@ -46,7 +49,7 @@ Choose ==
 Compute ==
   /\ pc = "chosen" /\ pc' = "done" /\ UNCHANGED <<task, first>>
   /\ \/ /\ task \in {"pts1", "pts2", "pts3"}
-        /\ \E q \in Quads, c \in (IF task = "pts1" THEN Carriers1 ELSE IF task = "pts2" THEN Carriers2 ELSE Carriers3) :
+        /\ \E q \in Quads, c \in (IF task = "pts1" THEN Carriers1 ELSE IF task = "pts2" THEN AllCarriers2 ELSE Carriers3) :
              /\ q[1] = first /\ Keep(q[2] \o q[3] \o q[4] \o c[1], IF task = "pts1" THEN 1 ELSE Stride)
              /\ res' = [t |-> "pts", d |-> Len(c[1]) - 1, q |-> q, pts |-> [i \in 1..4 |-> PtAt(c[1], c[2], q[i])],
                         cr |-> CR(q[1], q[2], q[3], q[4])]
@@ -72,7 +75,7 @@ Compute ==
      \/ /\ task = "harm"
         /\ \E x2 \in Params, x3 \in Params, d \in {1, 2, 3} :
              /\ Cardinality({first, x2, x3}) = 3
-             /\ \E c \in (IF d = 1 THEN Carriers1 ELSE IF d = 2 THEN Carriers2 ELSE Carriers3) :
+             /\ \E c \in (IF d = 1 THEN Carriers1 ELSE IF d = 2 THEN AllCarriers2 ELSE Carriers3) :
                   LET x4 == Harm(first, x2, x3) IN
                   res' = [t |-> "harm", d |-> d, q |-> <<first, x2, x3>>, pts |-> [i \in 1..3 |-> PtAt(c[1], c[2], <<first, x2, x3>>[i])],
                           h |-> Primitive(PtAt(c[1], c[2], x4)), x4 |-> x4]
